@@ -6,6 +6,11 @@ import Sekai.Driver.Stake
 import Sekai.Driver.Layer2
 import Sekai.Driver.Custody
 import Sekai.Driver.Basket
+import Sekai.Driver.Spend
+import Sekai.Driver.Ubi
+import Sekai.Driver.Collect
+import Sekai.Driver.Auth
+import Sekai.Driver.Ident
 /-! `sekai-model`: the model side of the correspondence check. One op per input line
 (`<domain> <op> <args…>`), one canonical observation per output line. Core Lean only. -/
 open Sekai
@@ -18,6 +23,9 @@ structure World where
   l2 : Driver.Layer2.St := Driver.Layer2.init
   custody : Driver.Custody.St := {}
   basket : Driver.Basket.St := {}
+  c18 : Driver.Spend.St := {}   -- spending pools + UBI + collectives (domains spend / ubi / coll share one state)
+  auth : Driver.Auth.St := {}
+  ident : Driver.Ident.St := {}
 
 def dispatch (w : World) (line : String) : World × String :=
   let toks := (line.trimAscii.toString.splitOn " ").filter (· ≠ "")
@@ -30,6 +38,11 @@ def dispatch (w : World) (line : String) : World × String :=
   | "l2" :: rest => let (s, o) := Driver.Layer2.step w.l2 rest; ({ w with l2 := s }, o)
   | "custody" :: rest => let (s, o) := Driver.Custody.step w.custody rest; ({ w with custody := s }, o)
   | "basket" :: rest => let (s, o) := Driver.Basket.step w.basket rest; ({ w with basket := s }, o)
+  | "spend" :: rest => let (s, o) := Driver.Spend.step w.c18 rest; ({ w with c18 := s }, o)
+  | "ubi" :: rest => let (s, o) := Driver.Ubi.step w.c18 rest; ({ w with c18 := s }, o)
+  | "coll" :: rest => let (s, o) := Driver.Collect.step w.c18 rest; ({ w with c18 := s }, o)
+  | "auth" :: rest => let (s, o) := Driver.Auth.step w.auth rest; ({ w with auth := s }, o)
+  | "ident" :: rest => let (s, o) := Driver.Ident.step w.ident rest; ({ w with ident := s }, o)
   | ["reset"] => ({}, "ok")
   | [] => (w, "")
   | _ => (w, "bad-op")
